@@ -38,7 +38,7 @@ func LoadWordVectors(filepath string) (*Index, error) {
 
 	idx := &Index{
 		Dimension:   100, // GloVe 100d
-		WordVectors: make(map[string][]float32, vocabSize),
+		WordVectors: make(map[string][]float32, preallocHint(vocabSize)),
 	}
 
 	// Read each word and vector
@@ -92,17 +92,30 @@ func (idx *Index) LoadCommandEmbeddings(filepath string) error {
 		return fmt.Errorf("dimension mismatch: expected %d, got %d", idx.Dimension, dimension)
 	}
 
-	// Read embeddings
-	idx.CmdEmbeddings = make([][]float32, numCommands)
+	// Read embeddings. The count comes from the file and is not trusted for allocation: the
+	// list grows as records are actually read.
+	embeddings := make([][]float32, 0, preallocHint(numCommands))
 	for i := uint32(0); i < numCommands; i++ {
 		embedding := make([]float32, dimension)
 		if err := binary.Read(reader, binary.LittleEndian, embedding); err != nil {
 			return fmt.Errorf("failed to read embedding at %d: %w", i, err)
 		}
-		idx.CmdEmbeddings[i] = embedding
+		embeddings = append(embeddings, embedding)
 	}
+	idx.CmdEmbeddings = embeddings
 
 	return nil
+}
+
+// maxPrealloc bounds what a count read from a file header may pre-allocate; beyond it the
+// containers grow as data is actually read, so memory stays proportional to the file.
+const maxPrealloc = 1 << 16
+
+func preallocHint(n uint32) int {
+	if n > maxPrealloc {
+		return maxPrealloc
+	}
+	return int(n)
 }
 
 // EmbedQuery computes an embedding for a query by averaging word vectors.
